@@ -35,8 +35,16 @@ RULE = ("one evaluation = one judged observation: (a) guise: a constant under on
         "harness (value x unit expression walked here), within 4 ulp x (unit factors of both + 4); the Unit object the library made of "
         "the constant (result units, Unit(q)) has the constant's dimension and size (base_value and expression, read as data); and a "
         "unit of the same name and dimension in the namespace's registry measures the same number as the constant; "
+        "(i) non-plain unit systems (offset temperature scale degC/degF in every spelling, coefficient*unit base units, angle/current units "
+        "other than rad/A, derived dimensions with their own unit, offset symbols of a private registry; each base unit handed over as "
+        "string / Unit / quantity / set after construction): (a)-(c),(h) on the namespace add_constants builds, a pure temperature in a "
+        "bare offset unit read as an absolute reading (scale x value - scale x offset, error relative to |scale x value|+|scale x offset|), "
+        "an offset symbol inside a product as its interval; unit-size: the unit of the plain guise has the size of the coherent product of "
+        "the system's base units; reexpress: one guise sent through one re-expression door {in_base implicit / by name / by object, in_mks, "
+        "in_cgs, in_base(another system), convert_to_base on a copy, module constant.in_base(this system)} still reads as the constant; "
         "distinct = (sub-monitor, constant or relation, name, suffix, namespace kind) tuples; for (f) (call template, operand position, "
-        "operand kind, kind of the other operand); for (h) (call form, probe kind, constant, suffix, namespace kind)")
+        "operand kind, kind of the other operand); for (h) (call form, probe kind, constant, suffix, namespace kind); "
+        "for reexpress (door, constant, suffix, namespace kind, result kind)")
 ASSUMPTIONS = (
     "vf/ref/c15_consts.py (own transcription: CODATA 2018 values, uncertainty classes = spread of CODATA 1986-2018 adjustments, IAU 2015 "
     "nominal GM / CODATA G, planet GM of the NASA fact sheets, which name belongs to which constant, unit sets of the 7 unit systems) is the trusted base",
@@ -78,6 +86,25 @@ ASSUMPTIONS = (
     "is not compared with the constant; every combination (probe kind x call form) is driven for the canonical names in the enumerated "
     "namespaces (module, top-level, default, 7 built-in systems, added, modified), elsewhere by rotation two combinations per canonical "
     "guise and one per alias guise (thorough tier: alias guises in every fourth generated system only)",
+    "non-plain unit systems: a number in a unit whose whole expression is one symbol with a zero-point offset (degC, degF, their "
+    "documented spellings, SI-prefixed degC with unyt's convention that the prefix scales the degree and keeps the zero point, a "
+    "user-added symbol with offset=) is an absolute reading, base = scale x (reading - offset) with the offset of vf/ref/defs.py (or the one "
+    "the harness itself passed to registry.add); inside a product, power or coefficient*symbol the same symbol denotes its interval "
+    "(kg*m**2/(degC*s**2) = J/K) - unyt's own documented convention for compound units, not a demand of the check",
+    "an absolute reading is compared with an error bound relative to |scale x value| + |scale x offset| (the rounding of -270.424 degC is "
+    "relative to 273.15, not to 2.726 K)",
+    "a unit object that prints as a bare offset symbol but carries base_offset 0 (what unyt makes of the expression 1.0*degC, which a "
+    "base unit handed over as the quantity unyt_quantity(1.0, 'degC') produces) prints as an absolute scale and converts as an interval: "
+    "no single reading is defined, such guises are counted (guise-ambiguous-offset-unit) and not judged",
+    "a constant that is an absolute reading on an offset scale is not driven as a unit / conversion target (x.to(-270.424 degC) has no "
+    "defined meaning); the ratio form refused with InvalidUnitOperation for units containing degC/degF is unyt's documented restriction (note)",
+    "unit-size clause: only where every unit atom of the plain guise is a base unit of the system (not for Gaussian fall-backs or "
+    "derived-dimension overrides); bound 8 ulp x (atoms + sum of |exponents| + 2); base units of the form coefficient*offset-symbol are "
+    "generated (2*degC is read as an interval of 2 K like unyt does) but never with a claim about a zero point",
+    "re-expression doors: UnitsNotReducible is accepted as add_constants accepts it; a source guise that is itself off is judged by the "
+    "guise monitor only (its re-expressions would be consequences); 'other system' = a built-in system or a non-plain system built "
+    "earlier in the same process (never one with private symbols)",
+    "unit spellings unyt refuses as a base unit of a UnitSystem are recorded (nonplain-not-constructible:<family>), not judged",
     "a driven call that does not return within 10 s of wall clock (1 s after five such calls) is abandoned and counted, never judged; a "
     "damaged constant is not restored, so later alarms of the same history may be consequences of the first (keys name call and operand)",
 )
@@ -182,6 +209,17 @@ def batches(tier, seed):
     per = 8 if tier == "quick" else 40
     for i in range(0, len(specs), per):
         b.append(("registries/%d" % (i // per), ("registries", specs[i:i + per])))
+    # unit systems whose base units are not plain scalings of named units (offset temperature scales, coefficient*unit, angle and
+    # current units other than rad/A, derived dimensions with their own unit, offset symbols of a private registry): enumerated
+    # families first, then seeded combinations (vf/gen/c15_nonplain.py)
+    from vf.gen import c15_nonplain as NP
+    nps = NP.specs(tier, core.rng(seed, "C15", "nonplain"))
+    for i, spec in enumerate(nps):          # as-unit on the alias names in every third non-plain system
+        if i % 3:
+            spec["asunit_alias"] = 0
+    per = 6 if tier == "quick" else 12
+    for i in range(0, len(nps), per):
+        b.append(("nonplain/%d" % (i // per), ("registries", nps[i:i + per])))
     # 'constants survive being used': one history per group of constants (enumerated battery, seeded order), each with the seven
     # built-in namespaces and one generated unit system held for the whole history.  Longest batches first.
     canons = list(K.C)
@@ -204,21 +242,32 @@ class Unreadable(Exception):
     pass
 
 
-def make_resolver(lut, extra, atoms):
-    """tok -> (scale, dimvec); scale = reference prefix factor x table value of the atomic symbol (data of this registry)"""
+class Ambiguous(Unreadable):
+    """the unit has no single defined reading (recorded and counted, never judged)"""
+
+
+def make_resolver(lut, extra, atoms, offsets=None, offs=None):
+    """tok -> (scale, dimvec); scale = reference prefix factor x table value of the atomic symbol (data of this registry).
+    A symbol with a zero-point offset (degC, degF, lat, lon: offset of the reference table; a user-added symbol: `offsets`) is
+    returned with the size of its interval and reported in `offs` as (tok, prefix factor, table scale, offset); whether the
+    reading is absolute is decided by the caller (only when the whole unit expression is that one symbol)."""
     def res(tok):
         if extra and tok in extra:
             atoms.append((1.0, tok))
+            if offsets and tok in offsets and offs is not None:
+                offs.append((tok, 1.0, extra[tok][0], offsets[tok]))
             return extra[tok]
         r = names.resolve(tok)
         if r is None:
             raise Unreadable(f"unit name {tok!r} unknown to the reference resolver")
         f, sym, _ = r
         de = defs.T[sym]
-        if de.offset != 0.0:
-            raise Unreadable(f"offset unit {tok!r} in a constant")
         ent = lut.get(sym) if lut is not None else None
         base = float(ent[0]) if ent is not None else de.value
+        if de.offset != 0.0:
+            if offs is None:
+                raise Unreadable(f"offset unit {tok!r} in a constant")
+            offs.append((tok, f, base, float(de.offset)))
         atoms.append((f, sym))
         return f * base, de.dim
     return res
@@ -266,9 +315,14 @@ def eval_expr(e, res):
     raise Unreadable(f"expression node {type(e).__name__}")
 
 
-def observe(unyt, obj, lut, extra, si=False):
-    """-> dict(value, scale, dim, atoms, unit) of a quantity (or of a Unit taken as 1 unit)"""
+def observe(unyt, obj, lut, extra, si=False, offsets=None):
+    """-> dict(value, scale, dim, atoms, unit, mag, affine, span, offset_atoms) of a quantity (or of a Unit taken as 1 unit).
+    affine: the unit expression is one bare symbol with a zero-point offset and obj is a quantity, so the number is an absolute
+    reading on that scale: mag = scale*value - (table scale)*offset (base = scale*(reading - offset); an SI-prefixed degC keeps its
+    zero point, vf/ref/defs.to_base).  Anywhere else (product, power, coefficient*symbol) an offset symbol stands for its interval.
+    span = |scale*value| + |table scale*offset|: the size the rounding error of an affine reading is relative to (0.0 otherwise)."""
     import numpy as np
+    import sympy
     if isinstance(obj, unyt.Unit):
         value, u = 1.0, obj
     else:
@@ -276,9 +330,19 @@ def observe(unyt, obj, lut, extra, si=False):
         if arr.shape != ():
             raise Unreadable(f"shape {arr.shape}")
         value, u = float(arr), obj.units
-    atoms = []
-    scale, dim = eval_expr(u.expr, si_resolver(atoms) if si else make_resolver(lut, extra, atoms))
-    return {"value": value, "scale": scale, "dim": dim, "atoms": atoms, "unit": str(u.expr), "mag": value * scale}
+    atoms, offs = [], []
+    scale, dim = eval_expr(u.expr, si_resolver(atoms) if si else make_resolver(lut, extra, atoms, offsets, offs))
+    o = {"value": value, "scale": scale, "dim": dim, "atoms": atoms, "unit": str(u.expr), "mag": value * scale, "affine": False,
+         "span": 0.0, "offset_atoms": [t[0] for t in offs]}
+    if offs and isinstance(u.expr, sympy.Symbol) and not isinstance(obj, unyt.Unit):
+        tok, f, base, off = offs[0]
+        if float(getattr(u, "base_offset", 0.0) or 0.0) == 0.0:
+            # a unit object that prints as an offset scale but converts as an interval (Unit(1.0*degC expression)): no defined reading
+            raise Ambiguous(f"unit {str(u.expr)!r} is an offset symbol but the unit object carries base_offset 0")
+        o["affine"] = True
+        o["mag"] = scale * value - base * off
+        o["span"] = abs(scale * value) + abs(base * off)
+    return o
 
 
 def relerr(a, b):
@@ -287,6 +351,15 @@ def relerr(a, b):
     if not (math.isfinite(a) and math.isfinite(b)):
         return float("inf")
     return abs(a - b) / max(abs(a), abs(b))
+
+
+def relerr_span(a, b, span):
+    """relerr for a magnitude read through an affine map: the rounding of -270.424 degC is relative to 273.15, not to 2.726"""
+    if a == b:
+        return 0.0
+    if not (math.isfinite(a) and math.isfinite(b)):
+        return float("inf")
+    return abs(a - b) / max(abs(a), abs(b), span)
 
 
 # ------------------------------------------------------------------ sub-monitors
@@ -313,8 +386,9 @@ def anchors(unyt, rec):
     return A
 
 
-def judge_guise(unyt, rec, A, obj, canon, name, suffix, ns, system_units, lut, extra, has_current, track):
-    """one guise of constant `canon` found under `name+suffix` in namespace kind `ns`"""
+def judge_guise(unyt, rec, A, obj, canon, name, suffix, ns, system_units, lut, extra, has_current, track, ctx=None):
+    """one guise of constant `canon` found under `name+suffix` in namespace kind `ns`; ctx = {"offsets": zero-point offsets of
+    user-added symbols, "sysinfo": base-unit sizes of a non-plain unit system (vf/gen/c15_nonplain.build)} or None"""
     c = K.C[canon]
     sfx = suffix or "plain"
     where = f"{ns}:{name}{suffix}"
@@ -329,7 +403,11 @@ def judge_guise(unyt, rec, A, obj, canon, name, suffix, ns, system_units, lut, e
         rec.violation(f"C15:guise:not-a-quantity:{sfx}:{ns}:{canon}", f"{where} is {type(obj).__name__} {obj!r}", case)
         return None
     try:
-        o = observe(unyt, obj, lut, extra)
+        o = observe(unyt, obj, lut, extra, offsets=(ctx or {}).get("offsets"))
+    except Ambiguous:
+        rec.note(f"guise:offset-symbol-on-a-unit-object-without-offset:not-judged:{sfx}")
+        rec.count("guise-ambiguous-offset-unit")
+        return None
     except Unreadable as e:
         rec.violation(f"C15:guise:unit-unreadable:{sfx}:{ns}:{canon}", f"{where} = {obj!r}: {e}", case)
         return None
@@ -347,16 +425,22 @@ def judge_guise(unyt, rec, A, obj, canon, name, suffix, ns, system_units, lut, e
                       f"{where} = {obj!r} has dimension {dims.show(o['dim'])}; {canon} is {dims.show(c.dim)}", case)
         return o
     tol = 4 * ULP * (len(o["atoms"]) + 2)
-    err = relerr(o["mag"], want)
+    err = relerr_span(o["mag"], want, o["span"])
     track["max_guise_relerr_ulp"] = max(track.get("max_guise_relerr_ulp", 0.0), err / ULP)
     if err > tol:
-        rec.violation(f"C15:guise:value-differs:{sfx}:{ns}:{canon}",
-                      f"{where} = {obj!r} is {o['mag']!r} in SI-coherent units but unyt.physical_constants.{canon}_mks is {want!r} "
+        how = (" [absolute reading on an offset scale: value x scale - scale x offset]" if o["affine"] else
+               (" [offset symbols %s read as intervals inside a product]" % o["offset_atoms"] if o["offset_atoms"] else ""))
+        rec.violation(f"C15:guise:value-differs:{sfx}:{ns}:{canon}" + (":offset-scale" if o["affine"] else ""),
+                      f"{where} = {obj!r} is {o['mag']!r} in SI-coherent units{how} but unyt.physical_constants.{canon}_mks is {want!r} "
                       f"(rel {err:.3g}, allowed {tol:.2g}, route {route})", case)
         return o
-    rec.ok(("guise", canon, name, sfx, ns))
+    rec.ok(("guise", canon, name, sfx, ns) + (("offset-scale",) if o["affine"] else ()))
     rec.count("guise:" + sfx)
     rec.count("guise-route:" + route)
+    if o["affine"]:
+        rec.count("guise-affine:" + sfx)
+    elif o["offset_atoms"]:
+        rec.count("guise-offset-interval:" + sfx)
     # (b) unit atoms belong to the system the guise is named for
     allowed = K.SI_TABLE_UNITS if suffix == "_mks" else (K.SYSTEM_UNITS["cgs"] if suffix == "_cgs" else system_units)
     cur = True if suffix == "_mks" else (False if suffix == "_cgs" else has_current)
@@ -373,10 +457,29 @@ def judge_guise(unyt, rec, A, obj, canon, name, suffix, ns, system_units, lut, e
     else:
         rec.violation(f"C15:guise:not-in-system-units:{sfx}:{ns}:{canon}",
                       f"{where} = {obj!r}: unit atoms {bad} are not units of the system this guise is named for", case)
+    # (b') in a system whose base units carry coefficients (10*m, 2.5*s) the unit of the plain guise has the size of the coherent
+    # product of that system's base units (judged only when every atom is a base unit of the system)
+    info = (ctx or {}).get("sysinfo")
+    if info is not None and suffix == "" and not bad and isinstance(obj, unyt.unyt_quantity):
+        from vf.gen import c15_nonplain as NP
+        want_sc = NP.expected_unit_scale(info, o["dim"]) if all(a in info["base_atoms"] for a in o["atoms"]) else None
+        if want_sc is None:
+            rec.count("system-scale:not-applicable")
+        else:
+            npow = sum(abs(float(x)) for x in o["dim"])
+            e2 = relerr(o["scale"], want_sc)
+            if e2 > 8 * ULP * (len(o["atoms"]) + npow + 2):
+                rec.violation(f"C15:guise:unit-size-not-of-the-system:{sfx}:{ns}:{canon}",
+                              f"{where} = {obj!r}: one unit {o['unit']!r} is {o['scale']!r} in coherent SI units, the coherent product of the "
+                              f"base units of this unit system (sizes {info['base_scale'][:6]}) for {dims.show(o['dim'])} is {want_sc!r} "
+                              f"(rel {e2:.3g})", case)
+            else:
+                rec.ok(("system-scale", canon, sfx, ns))
+                rec.count("system-scale:" + sfx)
     return o
 
 
-def judge_namespace(unyt, rec, A, get, ns, system_units, lut, extra, has_current, track, asunit=None):
+def judge_namespace(unyt, rec, A, get, ns, system_units, lut, extra, has_current, track, asunit=None, ctx=None):
     """all reference names x suffixes in one namespace; get(name) -> object or None. Returns SI magnitudes of the _mks guises
     and raw numbers of the _cgs guises (canonical names) for the relation monitor.  asunit = {"reg": registry of the namespace,
     "full": bool} switches on the 'constant used as a unit' sub-monitor for every guise of the namespace."""
@@ -386,7 +489,7 @@ def judge_namespace(unyt, rec, A, get, ns, system_units, lut, extra, has_current
             sib = {}
             for suffix in SUFFIXES:
                 obj = get(name + suffix)
-                o = judge_guise(unyt, rec, A, obj, canon, name, suffix, ns, system_units, lut, extra, has_current, track)
+                o = judge_guise(unyt, rec, A, obj, canon, name, suffix, ns, system_units, lut, extra, has_current, track, ctx)
                 if o is not None and isinstance(obj, unyt.unyt_quantity):
                     sib[suffix] = (obj, o)
                 if o is not None and name == canon:
@@ -399,7 +502,7 @@ def judge_namespace(unyt, rec, A, get, ns, system_units, lut, extra, has_current
                     judge_as_unit(unyt, rec, canon, name, suffix, sib, ns, asunit, lut, extra, track)
         rec.reach("constant:" + canon)
     for legacy, (canon, suffix) in K.LEGACY.items():
-        judge_guise(unyt, rec, A, get(legacy), canon, legacy, suffix, ns, system_units, lut, extra, has_current, track)
+        judge_guise(unyt, rec, A, get(legacy), canon, legacy, suffix, ns, system_units, lut, extra, has_current, track, ctx)
     return mks, cgs
 
 
@@ -432,7 +535,7 @@ def expected_measure(po, o):
     return None, None
 
 
-def as_unit_probes(unyt, canon, suffix, sib, reg, lut, extra, dlut, rot):
+def as_unit_probes(unyt, canon, suffix, sib, reg, lut, extra, dlut, rot, offsets=None):
     """-> [(probe kind, thunk building a fresh probe quantity, harness reading of it)]; probes are temporaries of the harness"""
     uq = unyt.unyt_quantity
     obj, o = sib[suffix]
@@ -441,13 +544,17 @@ def as_unit_probes(unyt, canon, suffix, sib, reg, lut, extra, dlut, rot):
     def add(kind, value, units, registry, plut, pextra):
         try:
             mk = (lambda: uq(value, units, registry=registry)) if registry is not None else (lambda: uq(value, units))
-            po = observe(unyt, mk(), plut, pextra)
+            po = observe(unyt, mk(), plut, pextra, offsets=offsets if pextra is not None else None)
         except Exception:
+            return
+        if po["affine"]:
             return
         out.append((kind, mk, po))
     k = PROBE_K[rot % len(PROBE_K)]
     # the value in the units of each sibling guise (own units, the SI spelling, the CGS/Gaussian spelling), same registry
     for s2, (obj2, o2) in sib.items():
+        if o2["affine"]:
+            continue        # k x (an absolute reading on an offset scale) is not k x the quantity
         kind = "own-units" if s2 == suffix else "units-of-" + (s2 or "plain").strip("_") + "-guise"
         add(kind, k * o2["value"], obj2.units, None, lut, extra)
     # coherent SI base units of the constant's own dimension (a Gaussian guise: kg**(1/2)*m**(3/2)/s), default and same registry
@@ -487,10 +594,11 @@ def as_unit_call(unyt, form, mk, q):
     raise ValueError(form)
 
 
-def as_unit_cfg(unyt, reg, full, reduced, alias=1):
+def as_unit_cfg(unyt, reg, full, reduced, alias=1, offsets=None):
     """full: every probe x every call form for the canonical names (aliases: `reduced` (form, probe) pairs by rotation);
     otherwise `reduced` pairs by rotation for the canonical names and `alias` pairs for the alias names"""
-    return {"reg": reg, "dlut": unyt.unit_registry.default_unit_registry.lut, "full": full, "reduced": reduced, "alias": alias}
+    return {"reg": reg, "dlut": unyt.unit_registry.default_unit_registry.lut, "full": full, "reduced": reduced, "alias": alias,
+            "offsets": offsets}
 
 
 def judge_as_unit(unyt, rec, canon, name, suffix, sib, ns, cfg, lut, extra, track):
@@ -500,10 +608,13 @@ def judge_as_unit(unyt, rec, canon, name, suffix, sib, ns, cfg, lut, extra, trac
     sfx = suffix or "plain"
     if not (o["mag"] != 0 and math.isfinite(o["mag"])):
         return
+    if o["affine"]:
+        rec.count("as-unit:not-driven:absolute-reading-on-offset-scale")       # see ASSUMPTIONS
+        return
     rot = cfg["_rot"] = cfg.get("_rot", -1) + 1
     reg = cfg["reg"]
     dlut = cfg["dlut"]
-    probes = as_unit_probes(unyt, canon, suffix, sib, reg, lut, extra, dlut, rot)
+    probes = as_unit_probes(unyt, canon, suffix, sib, reg, lut, extra, dlut, rot, cfg.get("offsets"))
     full = cfg["full"] and name == canon
     if full:
         plan = [(f, pr) for pr in probes for f in AS_FORMS]
@@ -532,6 +643,10 @@ def judge_as_unit(unyt, rec, canon, name, suffix, sib, ns, cfg, lut, extra, trac
                 rec.note(f"as-unit:{form}:raises:{type(e).__name__}:{fam}")      # limited E&M conversion support (documented)
                 rec.count("as-unit-raised:cross-family")
                 continue
+            if form == "ratio" and type(e).__name__ == "InvalidUnitOperation" and (o["offset_atoms"] or po["offset_atoms"]):
+                rec.note("as-unit:ratio:refused:unit-with-zero-point-offset-cannot-be-multiplied")     # documented restriction of unyt
+                rec.count("as-unit-raised:offset-unit-in-arithmetic")
+                continue
             rec.violation(f"C15:as-unit:{form}:raises:{type(e).__name__}:{sfx}:{ns}:{pk}",
                           f"{ns}:{name}{suffix} = {obj!r} used as a unit: {form} of a probe {po['value']!r} {po['unit']} raised "
                           f"{type(e).__name__}: {str(e)[:200]}", case)
@@ -554,7 +669,7 @@ def judge_as_unit(unyt, rec, canon, name, suffix, sib, ns, cfg, lut, extra, trac
             bad = None
             try:
                 atoms = []
-                sc, dm = eval_expr(u.expr, make_resolver(lut, extra, atoms))
+                sc, dm = eval_expr(u.expr, make_resolver(lut, extra, atoms, cfg.get("offsets"), []))
                 ud = dims.of_expr(u.dimensions)
                 bv = float(u.base_value)
                 if dm != o["dim"] or ud != o["dim"]:
@@ -768,6 +883,168 @@ def build_registry(unyt, spec):
                 allowed.add((f, sym))
         return reg, extra, allowed, bool(spec["current"]), "registry:generated-system" + ("" if spec["current"] else "-nocurrent")
     raise ValueError(kind)
+
+
+# ------------------------------------------------------------------ non-plain unit systems: re-expression doors
+RE_DOORS = ("in_base", "in_base:named", "in_base:object", "in_mks", "in_cgs", "in_base:other-system", "convert_to_base:copy",
+            "module-constant:in_base:named")
+
+
+def reexpress_call(unyt, door, q, sysname, other):
+    from unyt.unit_systems import unit_system_registry
+    if door == "in_base":
+        return q.in_base()
+    if door == "in_base:named":
+        return q.in_base(unit_system=sysname)
+    if door == "in_base:object":
+        return q.in_base(unit_system_registry[sysname])
+    if door == "in_mks":
+        return q.in_mks()
+    if door == "in_cgs":
+        return q.in_cgs()
+    if door == "in_base:other-system":
+        return q.in_base(unit_system=other)
+    if door == "convert_to_base:copy":
+        t = q.copy()                       # in place on the harness's own copy; the constant is only read
+        t.convert_to_base(unit_system=sysname)
+        return t
+    raise ValueError(door)
+
+
+def judge_reexpress(unyt, rec, A, get, ns, sysname, others, lut, extra, offsets, track, private_registry):
+    """every guise of the namespace of a non-plain unit system re-expressed through the routes add_constants itself uses (in_base
+    with the system given implicitly / by name / as an object, in_mks, in_cgs, the in-place twin on a copy) and into another unit
+    system, and the module constant reduced into this system: the result, read by the harness (absolute reading when its unit is one
+    bare offset symbol), is still the constant.  UnitsNotReducible is accepted as add_constants accepts it."""
+    import unyt.physical_constants as pc
+    dlut = unyt.unit_registry.default_unit_registry.lut
+    rot = 0
+    for canon, c in K.C.items():
+        if canon not in A:
+            continue
+        heavy = c.dim[3] != 0 or c.dim[5] != 0          # temperature or current in the dimension: every door for every guise
+        for suffix in SUFFIXES:
+            sfx = suffix or "plain"
+            for source in ("namespace", "module"):
+                if source == "namespace":
+                    q, qlut, qextra, qoff = get(canon + suffix), lut, extra, offsets
+                    doors = RE_DOORS[:7]
+                else:
+                    if private_registry:
+                        continue        # the symbols of a private registry are unknown to the default registry of the module constant
+                    q, qlut, qextra, qoff = getattr(pc, canon + suffix, None), dlut, None, None
+                    doors = RE_DOORS[7:]
+                if not isinstance(q, unyt.unyt_quantity):
+                    continue
+                try:
+                    so = observe(unyt, q, qlut, qextra, offsets=qoff)
+                except Unreadable:
+                    continue
+                swant = A[canon] * (K.EM_PAIR[c.dim][1] if (c.dim in K.EM_PAIR and so["dim"] == K.EM_PAIR[c.dim][0]) else 1.0)
+                if relerr_span(so["mag"], swant, so["span"]) > 4 * ULP * (len(so["atoms"]) + 2):
+                    rec.count("reexpress:source-guise-already-off")        # judged by the guise monitor; its re-expressions are consequences
+                    continue
+                if not heavy and source == "namespace":
+                    rot += 1
+                    doors = (doors[rot % 7], doors[(rot * 3 + 1) % 7])
+                for door in doors:
+                    other = others[rot % len(others)] if others else "mks"
+                    rot += door == "in_base:other-system"
+                    case = {"constant": canon, "name": canon + suffix, "namespace": ns, "door": door, "source": [so["value"], so["unit"]],
+                            "other_system": other if door == "in_base:other-system" else None}
+                    try:
+                        if source == "module":
+                            r = q.in_base(unit_system=sysname)
+                        else:
+                            r = reexpress_call(unyt, door, q, sysname, other)
+                    except Exception as e:
+                        if type(e).__name__ == "UnitsNotReducible":
+                            rec.note(f"reexpress:not-reducible:{canon}:{door}")
+                            rec.count("reexpress-not-reducible")
+                            continue
+                        rec.violation(f"C15:reexpress:{door}:raises:{type(e).__name__}:{sfx}:{ns}",
+                                      f"{ns}:{canon}{suffix} = {q!r} ({source} guise): {door} raised {type(e).__name__}: {str(e)[:200]}", case)
+                        continue
+                    try:
+                        o = observe(unyt, r, qlut, qextra, offsets=qoff)
+                    except Ambiguous:
+                        rec.note(f"reexpress:{door}:offset-symbol-on-a-unit-object-without-offset:not-judged")
+                        rec.count("reexpress-ambiguous-offset-unit")
+                        continue
+                    except Unreadable as e:
+                        rec.violation(f"C15:reexpress:{door}:result-unreadable:{sfx}:{ns}", f"{ns}:{canon}{suffix} = {q!r}: {door} gives {r!r}: {e}", case)
+                        continue
+                    want = A[canon]
+                    if o["dim"] == c.dim:
+                        route = "direct"
+                    elif c.dim in K.EM_PAIR and o["dim"] == K.EM_PAIR[c.dim][0]:
+                        want, route = want * K.EM_PAIR[c.dim][1], "gaussian"
+                    else:
+                        rec.violation(f"C15:reexpress:{door}:dimension-differs:{sfx}:{ns}",
+                                      f"{ns}:{canon}{suffix} = {q!r}: {door} gives {r!r} of dimension {dims.show(o['dim'])}; {canon} is "
+                                      f"{dims.show(c.dim)}", case)
+                        continue
+                    tol = 4 * ULP * (len(o["atoms"]) + len(so["atoms"]) + 4)
+                    err = relerr_span(o["mag"], want, max(o["span"], so["span"]))
+                    track["max_reexpress_relerr_ulp"] = max(track.get("max_reexpress_relerr_ulp", 0.0), min(err / ULP, 1e18))
+                    kind = "offset-scale" if o["affine"] else ("offset-interval" if o["offset_atoms"] else "plain-scaling")
+                    if err > tol:
+                        rec.violation(f"C15:reexpress:{door}:value-differs:{sfx}:{ns}:{kind}",
+                                      f"{ns}:{canon}{suffix} = {q!r} ({source} guise, {so['mag']!r} in coherent SI units): {door}"
+                                      f"{'(' + other + ')' if door == 'in_base:other-system' else ''} gives {r!r} which is {o['mag']!r} in coherent "
+                                      f"SI units ({kind}); unyt.physical_constants.{canon}_mks is {want!r} (rel {err:.3g}, allowed {tol:.2g}, "
+                                      f"route {route})", case)
+                    else:
+                        rec.ok(("reexpress", door, canon, sfx, ns, kind))
+                        rec.count("reexpress:" + door)
+                        rec.count("reexpress-result:" + kind)
+
+
+def run_nonplain(unyt, rec, A, spec, track, state):
+    """one unit system of vf/gen/c15_nonplain.py: construction, add_constants, every coherence monitor, the re-expression doors"""
+    from unyt.unit_systems import add_constants
+    from vf.gen import c15_nonplain as NP
+    fam = spec["family"]
+    ns = "registry:nonplain:" + fam
+
+    def resolve(name):
+        r = names.resolve(name)
+        if r is None:
+            raise KeyError(name)
+        return r[0], r[1]
+
+    def table_scale(lut, sym):
+        ent = lut.get(sym)
+        return float(ent[0]) if ent is not None else float(defs.T[sym].value)
+    try:
+        reg, extra, offsets, allowed, has_current, info = NP.build(unyt, spec, resolve, table_scale)
+    except Exception as e:
+        rec.note(f"registry-not-constructible:nonplain:{fam}:{type(e).__name__}")
+        rec.count("registry-not-constructible")
+        rec.count("nonplain-not-constructible:" + fam)
+        return
+    space = {}
+    try:
+        add_constants(space, reg)
+    except Exception as e:
+        rec.violation(f"C15:add_constants:raises:{ns}:{type(e).__name__}", f"add_constants(ns, registry) for {spec} raised "
+                      f"{type(e).__name__}: {e}", spec)
+        return
+    ctx = {"offsets": offsets, "sysinfo": info}
+    mks, cgs = judge_namespace(unyt, rec, A, space.get, ns, allowed, reg.lut, extra, has_current, track,
+                               asunit=as_unit_cfg(unyt, reg, False, 2, spec.get("asunit_alias", 1), offsets), ctx=ctx)
+    judge_relations(rec, mks, ns, "SI", track)
+    judge_relations(rec, cgs_raw(cgs), ns, "raw-CGS", track, only=K.MECHANICAL)
+    judge_reexpress(unyt, rec, A, space.get, ns, spec["name"], state["others"], reg.lut, extra, offsets, track, bool(spec["code"]))
+    if not spec["code"]:
+        state["others"].append(spec["name"])
+    rec.count("registries")
+    rec.count("nonplain:" + fam)
+    for d, b in spec["base"].items():
+        if b is not None and (b["coeff"] is not None or b["unit"] != NP.DEFAULT[d]):
+            rec.count("nonplain-door:" + b["how"])
+    rec.reach("namespace:" + ns)
+    rec.sample({"registry": spec, "Tcmb": repr(space.get("Tcmb")), "kb": repr(space.get("kb")), "qp": repr(space.get("qp"))}, limit=2)
 
 
 # ------------------------------------------------------------------ 'constants survive being used'
@@ -1081,7 +1358,11 @@ def worker(batch, rec):
     elif kind == "usage":
         run_usage(unyt, rec, A, bid, payload, track)
     elif kind == "registries":
+        state = {"others": list(BUILTIN)}
         for spec in payload:
+            if spec["kind"] == "nonplain":
+                run_nonplain(unyt, rec, A, spec, track, state)
+                continue
             try:
                 reg, extra, allowed, has_current, ns = build_registry(unyt, spec)
             except Exception as e:
@@ -1112,7 +1393,9 @@ def worker(batch, rec):
 CATALOGUE = (["constant:" + c for c in K.C] + ["relation:" + r[0] for r in K.RELATIONS] +
              ["double-role:" + c for c in K.DOUBLE_ROLE_LISTED] +
              ["namespace:registry:" + s for s in BUILTIN + ("default", "added-symbols", "modified-homonyms", "code-units",
-                                                            "generated-system", "generated-system-nocurrent")])
+                                                            "generated-system", "generated-system-nocurrent")] +
+             ["namespace:registry:nonplain:" + f for f in
+              ("offset-temperature", "scaled-base", "angle", "current", "derived-override", "offset-code-unit", "mixed")])
 
 
 def extra(tier, seed, results):
@@ -1140,6 +1423,12 @@ def extra(tier, seed, results):
              "as-unit-probe:units-of-cgs-guise", "as-unit-probe:units-of-plain-guise", "as-unit:unit-of-same-name")
     need += ("survive:bystanders", "after-use:snapshot", "after-use:bindings", "after-use:coherence", "relation:SI:after-use",
              "relation:raw-CGS:after-use", "relation:SI-bare:after-use", "published:after-use")
+    # non-plain unit systems: every family built and judged, every door a base unit can come through, pure temperatures read as
+    # absolute readings on an offset scale, offset symbols inside products, the unit-size clause, every re-expression door
+    from vf.gen import c15_nonplain as NP
+    need += tuple("nonplain:" + f for f in NP.FAMILIES) + tuple("nonplain-door:" + h for h in NP.HOWS)
+    need += ("guise-affine:plain", "guise-offset-interval:plain", "system-scale:plain", "reexpress-result:offset-scale",
+             "reexpress-result:offset-interval", "reexpress-result:plain-scaling") + tuple("reexpress:" + d for d in RE_DOORS)
     zero = [n for n in need if counters.get(n, 0) == 0]
     viol = any(r.get("viol") for _, r in results)
     if zero and not viol:
